@@ -3,6 +3,7 @@ import IPT.Model.Hijri
 import IPT.Model.Range
 import IPT.Model.Qibla
 import IPT.Model.Bounded
+import IPT.Model.F64
 /- Line-protocol driver: the Float instance of the model, one request per line, one answer per
    line.  Every f64 travels as 16 hex digits of its bit pattern. -/
 namespace IPT.Driver
@@ -162,6 +163,31 @@ def topOf (loc : Location Float) (rd : Int) : TopAstroDay Float :=
   topFromJd (JD.new rd loc.gmt) loc.coords
 
 def bad : String := "BAD-REQUEST"
+
+def b01 (b : Bool) : String := if b then "1" else "0"
+
+/-- strings travel hex-encoded (two hex digits per byte) -/
+def unhex (s : String) : Option String :=
+  let rec go (cs : List Char) (acc : List UInt8) : Option (List UInt8) :=
+    match cs with
+    | [] => some acc.reverse
+    | a :: b :: rest => match hexDigit a, hexDigit b with
+      | some x, some y => go rest ((x * 16 + y).toUInt8 :: acc)
+      | _, _ => none
+    | _ => none
+  match s.toList with
+  | 'x' :: cs =>
+    (match go cs [] with
+    | some bytes => String.fromUTF8? (ByteArray.mk bytes.toArray)
+    | none => none)
+  | _ => none
+
+def hexOfBits (b : Nat) : String :=
+  let ds := Nat.toDigits 16 (b % 2 ^ 64)
+  String.ofList (List.replicate (16 - ds.length) '0' ++ ds)
+
+def rangeBits (t : BType) : Nat × Nat :=
+  (((BType.lo t : Float)).toBits.toNat, ((BType.hi t : Float)).toBits.toNat)
 
 def handle (toks : List String) : String :=
   match toks with
@@ -326,6 +352,53 @@ def handle (toks : List String) : String :=
     | some t, some v =>
       (match fromJsonNumber t v with
       | some x => "OK " ++ hexOf x
+      | none => "ERR")
+    | _, _ => bad
+  | ["f64cmp", a, b] =>
+    match parseHex a, parseHex b with
+    | some a, some b =>
+      let (fa, fb) := (Float.ofBits a, Float.ofBits b)
+      let (na, nb) := (a.toNat, b.toNat)
+      " ".intercalate [b01 (fa ≤ fb), b01 (fa < fb), b01 (fa == fb), b01 (F64.le na nb), b01 (F64.lt na nb), b01 (F64.eq na nb)]
+    | _, _ => bad
+  | ["parse", which, hs] =>
+    match unhex hs with
+    | some str =>
+      let p := if which == "json" then F64.parseJson str else F64.parseRust str
+      (match p.bits? with
+      | some b =>
+        -- serde_json reports an out-of-range number as an error; it has no inf/nan literals
+        if which == "json" && !F64.isFinite b then "ERR" else hexOfBits b
+      | none => "ERR")
+    | none => bad
+  | ["route", ty, which, hs] =>
+    match parseBType ty, unhex hs with
+    | some t, some str =>
+      let p := if which == "json" then F64.parseJson str else F64.parseRust str
+      (match p.bits? with
+      | some b =>
+        let (lo, hi) := rangeBits t
+        let checked := which != "json" || t.jsonChecked
+        if which == "json" && !F64.isFinite b then "ERR"
+        else if !checked then "OK " ++ hexOfBits b
+        else (match F64.tryFromBits lo hi b with
+          | some x => "OK " ++ hexOfBits x
+          | none => "ERR")
+      | none => "ERR")
+    | _, _ => bad
+  | ["rangecheck", ty] =>
+    match parseBType ty with
+    | some t =>
+      let (lo, hi) := rangeBits t
+      let (blo, bhi) := boundBits t
+      " ".intercalate [hexOfBits lo, hexOfBits hi, hexOfBits blo, hexOfBits bhi]
+    | none => bad
+  | ["boundedbits", ty, v] =>
+    match parseBType ty, parseHex v with
+    | some t, some v =>
+      let (lo, hi) := rangeBits t
+      (match F64.tryFromBits lo hi v.toNat with
+      | some x => "OK " ++ hexOfBits x
       | none => "ERR")
     | _, _ => bad
   | _ => bad
